@@ -86,10 +86,10 @@ class SpyCassette(TapeCassette):
     def writes(self, since=0):
         return [e for e in self.log[since:] if e[0] in ('create', 'save', 'abort')]
 
-    def finalisation(self):
+    def finalisation(self, since=0):
         """-> {recording object id: {'id':..., 'save': n, 'abort': n, 'save_failed': n}} for every created recording."""
         out = {}
-        for e in self.log:
+        for e in self.log[since:]:
             if e[0] == 'create':
                 out[e[1]] = {'id': e[2], 'save': 0, 'abort': 0, 'save_failed': 0}
             elif e[0] in ('save', 'abort', 'save_failed'):
